@@ -114,6 +114,19 @@ def class_constant(cls, attr):
     return NotImplemented
 
 
+def literal_expression(e):
+    """literals combined by str.maketrans / frozenset / set / tuple / dict only"""
+    if isinstance(e, ast.Constant):
+        return True
+    if isinstance(e, (ast.List, ast.Tuple, ast.Set)):
+        return all(literal_expression(x) for x in e.elts)
+    if isinstance(e, ast.Dict):
+        return all(k is not None and literal_expression(k) and literal_expression(v) for k, v in zip(e.keys, e.values))
+    if isinstance(e, ast.Call) and not e.keywords and ast.unparse(e.func) in ('str.maketrans', 'frozenset', 'set', 'tuple', 'dict'):
+        return all(literal_expression(a) for a in e.args)
+    return False
+
+
 def loops_in(fn):
     ls = [w for w in ast.walk(fn) if isinstance(w, (ast.While, ast.For))]
     ls.sort(key=lambda w: (w.lineno, w.col_offset))
@@ -190,6 +203,10 @@ class Run:
                 self.alts.append(self.taken + [o])
         self.taken.append(c)
         return c
+
+
+PY_EXACT_TYPES = {'str': str, 'int': int, 'bytes': bytes, 'float': float, 'bool': bool, 'list': list, 'dict': dict,
+                  'tuple': tuple}
 
 
 class Engine:
@@ -1262,6 +1279,13 @@ class Engine:
         current source file initialises it with an int / bool / None constant, it is an arbitrary value of that
         type - no invariant is known about it, so proofs that depend on it fail as undischarged obligations."""
         cls = self.src.find_class(base.cls)
+        if cls is not None:
+            # a class attribute whose initialiser is built from literals by pure constructors (X = str.maketrans('+/', '-_'))
+            for st in cls.body:
+                if isinstance(st, ast.Assign) and len(st.targets) == 1 and isinstance(st.targets[0], ast.Name) \
+                        and st.targets[0].id == attr and literal_expression(st.value):
+                    return eval(compile(ast.Expression(st.value), '<class attribute>', 'eval'),
+                                {'__builtins__': {}, 'str': str, 'frozenset': frozenset, 'set': set, 'tuple': tuple, 'dict': dict})
         init = next((m for m in cls.body if isinstance(m, ast.FunctionDef) and m.name == '__init__'), None) if cls else None
         if init is None:
             return NotImplemented
@@ -1663,6 +1687,16 @@ class Engine:
         raise Unsupported(f'{self.c.qual}: operator {type(op).__name__} in {txt}')
 
     def e_Compare(self, e):
+        if isinstance(e.left, ast.Call) and isinstance(e.left.func, ast.Name) and e.left.func.id == 'type' \
+                and len(e.left.args) == 1 and len(e.ops) == 1 and isinstance(e.ops[0], (ast.Is, ast.IsNot, ast.Eq, ast.NotEq)) \
+                and isinstance(e.comparators[0], ast.Name) and e.comparators[0].id in PY_EXACT_TYPES \
+                and self.lookup_scope('type') is None:
+            # type(v) is T: the exact class (no subclasses), decided for concrete values only
+            v = self.eval(e.left.args[0])
+            if v is None or type(v) in PY_EXACT_TYPES.values() or isinstance(v, (str, bytes)):
+                same = type(v) is PY_EXACT_TYPES[e.comparators[0].id]
+                return same if isinstance(e.ops[0], (ast.Is, ast.Eq)) else not same
+            raise Unsupported('type(v) of a symbolic value')
         left = self.eval(e.left)
         out = []
         for op, r in zip(e.ops, e.comparators):
@@ -2275,9 +2309,9 @@ class Engine:
         if name == 'str' and len(args) == 1 and isinstance(args[0], (int, float, str)) and not isinstance(args[0], bool):
             return str(args[0])
         if name == 'str':
-            from .models.bytesmodel import BSeq
-            if args and isinstance(args[0], BSeq) and len(args) == 2 and args[1] == 'ascii':
-                return args[0]          # str(<hex bytes>, 'ascii'): same characters
+            from .models.bytesmodel import BSeq, B64Text
+            if args and isinstance(args[0], (BSeq, B64Text)) and len(args) == 2 and args[1] == 'ascii':
+                return args[0]          # str(<hex / base64 bytes>, 'ascii'): same characters
             return Opaque('str')
         if name == 'bytearray':
             from .models.bytesmodel import BSeq
@@ -2295,6 +2329,10 @@ class Engine:
             return PyList([(start + k, x) for k, x in enumerate(items)])
         if name == 'list' and len(args) == 1 and isinstance(args[0], PyList):
             return PyList(list(args[0].items))
+        if name == 'map' and len(args) == 2 and isinstance(args[1], (PyList, tuple, list)) and not kwargs:
+            # map(f, xs) over a list of known length; evaluated eagerly (every use in scope consumes it at once)
+            items = args[1].items if isinstance(args[1], PyList) else list(args[1])
+            return PyList([self.call_value(args[0], [x], {}, e) for x in items])
         if name == 'list' and len(args) == 1 and isinstance(args[0], (str, tuple)):
             return PyList(list(args[0]))
         if name == 'ord' and isinstance(args[0], (str, bytes)) and len(args[0]) == 1:
@@ -2400,9 +2438,20 @@ class Engine:
                 v = _dt.datetime(*args, tzinfo=_dt.timezone.utc) - _dt.datetime(1970, 1, 1, tzinfo=_dt.timezone.utc)
                 return DT(z3.IntVal(v // _dt.timedelta(microseconds=1)))
             raise Unsupported('datetime.datetime(...) with symbolic fields')
-        if ftxt in ('binascii.b2a_hex', 'binascii.a2b_hex', 'SHA256.new', 'AES.new'):
+        if ftxt == 'str.maketrans':
+            args, kw = self.args(e)
+            if not kw and all(isinstance(a, (str, dict)) for a in args):
+                return str.maketrans(*args)
+            raise Unsupported('str.maketrans of symbolic text')
+        if ftxt in ('binascii.b2a_hex', 'binascii.a2b_hex', 'SHA256.new', 'AES.new', 'base64.b64encode', 'base64.b64decode'):
             from .models import bytesmodel as bm
             args, kw = self.args(e)
+            if ftxt == 'base64.b64encode' and len(args) == 1 and not kw:
+                return bm.b64encode(args[0])
+            if ftxt == 'base64.b64decode' and len(args) == 1 and not kw:
+                return bm.b64decode(self, args[0])
+            if ftxt.startswith('base64.'):
+                raise Unsupported(f'{ftxt} with options')
             if ftxt == 'binascii.b2a_hex':
                 return bm.b2a_hex(args[0])
             if ftxt == 'binascii.a2b_hex':
